@@ -1,7 +1,52 @@
-(** C06 — statements (work in progress: pipeline first). *)
-From Cstl Require Import Prelude ConcModel.
+(** C06 — reference counting is correct under every thread interleaving.
+    Statements only; proofs are in ConcProofs.v; the model (one small step per
+    atomic operation of src/memory.c, any number of threads) is ConcModel.v. *)
+From Cstl Require Import Prelude ConcModel ConcProofs.
 
-Theorem C06_finished_no_step gl t : prog t = [] -> step_thread gl t = None.
-Proof. intros H. unfold step_thread. rewrite H. reflexivity. Qed.
+(** The inductive invariant [conc_inv] (ConcProofs.v): every thread's objects
+    agree with its program counter, and with O = counted owners, P = transient
+    lock probes, S = counted references, W/C/F = threads inside the flag window /
+    about to clear / about to free the bookkeeping block (all summed over ALL
+    threads):  hard = O + P,  soft = S,  lock <-> W = 1 (never 2),  C <= 1,
+    mem Live <-> O + C > 0,  C > 0 -> O = 0,  P > 0 -> O = 0,  F <= 1,
+    data Live <-> S + F > 0,  F > 0 -> S = 0,  error flag clear. *)
 
-Print Assumptions C06_finished_no_step.
+(** it holds in every well-formed initial configuration: any number of threads,
+    each holding counted shared objects, counted weak objects and empty ones,
+    about to run any program on them *)
+Theorem C06_inv_initial ts : Forall thread_init_ok ts -> conc_inv (init_state ts).
+Proof. exact (conc_inv_init ts). Qed.
+
+(** every small step of every thread preserves it *)
+Theorem C06_inv_step st tid st' : conc_inv st -> step st tid = Some st' -> conc_inv st'.
+Proof. exact (conc_inv_step st tid st'). Qed.
+
+(** hence it holds after every schedule, for any number of threads *)
+Theorem C06_inv_every_schedule ts sched :
+  Forall thread_init_ok ts -> conc_inv (run (init_state ts) sched).
+Proof. intros H. apply conc_inv_run. apply conc_inv_init; auto. Qed.
+
+(** Non-vacuity: three threads in the middle of their calls.  Thread 0 (the
+    last owner) has taken the owner count to 0 and is about to clear the
+    memory; thread 2 holds the spin flag and has just incremented the owner
+    count from 0 (a probe it will undo); thread 1 spins on the flag. *)
+Example C06_example_midflight :
+  let ts := [mk_thread 1 1 0 1 [Reset 0];
+             mk_thread 0 1 1 0 [Lock 0 0; Get 0; Reset 0; WeakReset 0];
+             mk_thread 0 1 1 0 [Lock 0 0; Get 0; Reset 0; WeakReset 0]] in
+  let st := run (init_state ts) [0; 2; 2; 1] in
+  conc_inv st /\
+  map tpc (ths st) = [PClear; PLockSpin; PLockUndo] /\
+  (hard (g st), soft (g st), lock (g st), mem (g st), data (g st)) = (1%N, 3%N, true, Live, Live) /\
+  has_race st = false.
+Proof.
+  split.
+  - apply conc_inv_run. apply conc_inv_init.
+    repeat (apply Forall_cons; [apply mk_thread_init_ok; repeat constructor; simpl; lia|]).
+    constructor.
+  - vm_compute. auto.
+Qed.
+
+Print Assumptions C06_inv_initial.
+Print Assumptions C06_inv_step.
+Print Assumptions C06_inv_every_schedule.
